@@ -72,8 +72,8 @@ def run_c08(scn, dev, expect, mons):
                 # an earlier run with other stopping options, through the public API (as HyperTuner does)
                 used_opt.set_config_parameters(registry.base_params(base['opt'], **ev['over']))
         hs = {'opt': base['opt'], 'over': ev.get('over') or base.get('over', {}), 'proto': ev['proto'],
-              'minmax': ev.get('minmax', 'min'), 'seed': 1000 + k, 'weights': ev.get('weights'),
-              'tcls': ev.get('tcls', 'A'), 'lenient': True}
+              'minmax': ev.get('minmax', 'min'), 'seed': base.get('seed', 0) if ev.get('same_seed') else 1000 + k,
+              'weights': ev.get('weights'), 'tcls': ev.get('tcls', 'A'), 'lenient': True, 'obj': ev.get('obj', 'quad')}
         if ev.get('mode'):
             hs['mode'], hs['workers'] = ev['mode'], ev.get('workers', 2)
         if ev.get('same_task'):
@@ -146,19 +146,22 @@ def run_c18(scn, dev, expect, mons):
         stop_fields = {k: v for k, v in base.get('over', {}).items()
                        if k in registry.BASE_FIELDS and k != 'population_size'}
         fixture = registry.base_params(base['opt'], **stop_fields)
-        for used in (False, True):
+        for used in (False, True, 'same-task'):
             try:
                 with seams.paused():
                     inst2 = registry.OPTS[base['opt']](registry.config_class(base['opt'])(**fixture))
+                    shared = harness.build_task(base) if used == 'same-task' else None
                 if used:
-                    harness.run_execution(dict(base, over=stop_fields, lenient=True, seed=4242), {}, opt=inst2)
+                    harness.run_execution(dict(base, over=stop_fields, lenient=True, seed=4242), {}, opt=inst2,
+                                          task=shared)
                 with seams.paused():
                     inst2.set_config_parameters(params)
             except Exception as e:
                 finds.append(('C18', f"C18|{o}|reconfiguration-raises", f"{type(e).__name__}: {e}"))
                 continue
-            c = harness.run_execution(dict(base, lenient=True), dev, opt=inst2)
-            compare(c, 'built-with-fixture-then-reconfigured' + ('-after-a-run' if used else ''))
+            c = harness.run_execution(dict(base, lenient=True), dev, opt=inst2, task=shared)
+            compare(c, 'built-with-fixture-then-reconfigured' + (
+                '-after-a-run-on-the-same-task-object' if used == 'same-task' else '-after-a-run' if used else ''))
     return a, finds
 
 
